@@ -312,10 +312,10 @@ theorem c12_eq_coherent_numeric (x y : Json) (a b : Dec) (hx : numOf x = some a)
   have fy := floatOfJson_num hy
   have hg : geq (.json x) (.json y) = Dec.le b a := by
     unfold geq ordOp
-    cases x <;> cases y <;> simp_all [numOf, float64Operand]
+    cases x <;> cases y <;> simp_all [numOf, float64Operand, nanVal, nanJson]
   have hl : leq (.json x) (.json y) = Dec.le a b := by
     unfold leq ordOp
-    cases x <;> cases y <;> simp_all [numOf, float64Operand]
+    cases x <;> cases y <;> simp_all [numOf, float64Operand, nanVal, nanJson]
   rw [hg, hl]
   unfold Dec.eqv Dec.le
   generalize a.num * (10 : Int) ^ b.exp = X
